@@ -331,6 +331,7 @@ class Interp:
         self.api_misuse = []          # (node_ast, text)
         self.notes = []
         self._gens = []
+        self._memo = {}
         self.hooks = hooks or {}
         self.asked = []               # atoms consulted in this run (order)
         self.fcount = {}
@@ -580,6 +581,24 @@ class Interp:
                             genv[p_] = self.expr(fn.args.defaults[i_ - (len(ps_) - nd_)], {"@owner": owner, "@module": mod0}, depth + 1)
                     genv.update(kwargs)
                     return ("ctxgen", fn, genv, owner)
+            for d in decs:
+                dn = unparse(d.func if isinstance(d, ast.Call) else d).split(".")[-1]
+                if dn in ("lru_cache", "cache") and not getattr(self, "_in_memo", False):
+                    # functools.lru_cache / cache: equal arguments give back the very same object
+                    try:
+                        mkey = (id(fn), tuple(a[1] if a[0] == "c" else (_ for _ in ()).throw(TypeError()) for a in args),
+                                tuple(sorted((k_, v_[1] if v_[0] == "c" else (_ for _ in ()).throw(TypeError())) for k_, v_ in kwargs.items())))
+                        hash(mkey)
+                    except TypeError:
+                        mkey = None
+                    if mkey is not None:
+                        if mkey not in self._memo:
+                            self._in_memo = True
+                            try:
+                                self._memo[mkey] = self.call_function(fn, owner, self_val, args, kwargs, env0=env0, depth=depth, defaults_mod=defaults_mod)
+                            finally:
+                                self._in_memo = False
+                        return self._memo[mkey]
             user = []
             for d in decs:
                 if isinstance(d, ast.Name) and mod0 is not None:
